@@ -263,24 +263,28 @@ def r09d(ck, fb):
     b = ck.body(CV + 'update_value', 'R09d')
     if b:
         push = util.mut_calls_on_field(b, 'histories', r'Vec::<T, A>::push$')
-        rm = util.mut_calls_on_field(b, 'histories', r'Vec::<T, A>::remove$')
-        ck.require(len(push) == 1 and len(rm) == 1, 'R09d', 'update_value:push+remove', b.where(), 'push/remove(0) pair not found')
-        if push and rm:
-            r = rm[0]
+        # the trimming may live in a helper of the same file (extract-method): judged in the body that holds it
+        rms = [(x, s0) for x in util.region(fb, b, 1) for s0 in util.mut_calls_on_field(x, 'histories', r'Vec::<T, A>::remove$')]
+        ck.require(len(push) == 1 and len(rms) >= 1, 'R09d', 'update_value:push+remove', b.where(), 'push/remove(0) pair not found')
+        if push and rms:
+            (rb, r) = rms[0]
             c = op_const(r.args[1])
             ck.require(c is not None and str(c.get('v')) == '0', 'R09d', 'update_value:removes-oldest', r.where(), 'the removed history item is not index 0 (oldest)')
             ok = False
-            for a in cfg.guard_atoms(b, r.bb):
+            for a in cfg.guard_atoms(rb, r.bb):
                 if a[0] == 'cmp' and a[1] in ('Ge', 'Gt') and a[4] is True:
                     k = a[3]
-                    l = cfg.strip_calls(b, a[2])
+                    l = cfg.strip_calls(rb, a[2])
                     if k['k'] == 'const' and 'v' in k['c'] and l['k'] == 'call' and (cfg.callee_name(l['term']) or '').endswith('::len'):
                         bound = int(k['c']['v']) + (1 if a[1] == 'Gt' else 0)
                         ok = bound <= 100
                         ck.extra['history_bound'] = bound
             ck.require(ok, 'R09d', 'update_value:bound<=100', r.where(), 'the history is not trimmed when it holds 100 items (bound constant changed or guard missing)')
-            # the guard is evaluated before the push on every path: the comparison block dominates the push
-            cmpb = [a[5] for a in cfg.guard_atoms(b, r.bb) if a[0] == 'cmp']
+            # the guard is evaluated before the push on every path: the comparison block (or the call of the helper that holds it) dominates the push
+            if rb is b:
+                cmpb = [a[5] for a in cfg.guard_atoms(b, r.bb) if a[0] == 'cmp']
+            else:
+                cmpb = [s1.bb for s1 in b.sites if (s1.resolved or s1.callee) == rb.name]
             ck.require(bool(cmpb) and cfg.dominates_blocks(b, set(cmpb), push[0].bb), 'R09d', 'update_value:guard-before-push', push[0].where(), 'push can happen without the bound test')
             # pushed item carries the new content and the given id
             it = b.aggregates(r'config::model::HistoryItem$')
@@ -636,6 +640,13 @@ def r09l(ck, fb, R='R09l'):
                     worst = int(a[3]['c']['v']) + (1 if a[1] == 'Gt' else 0)
         ck.require(worst is None or worst <= 101, R, 'full-value:bound<=100', s0.where(),
                    'the imported history is only cut when it holds %s items or more: the bound of the property is 100' % worst)
+        # ... and not more than needed: on the full-value path nothing is pushed afterwards, so a cut that already fires at 100 items (the
+        # trimming step of update_value, which makes room for the item it is about to push) leaves 99: the oldest acknowledged entry of a
+        # full history is gone after a compaction + restart or a snapshot install
+        pushes_after = bool(util.mut_calls_on_field(b, 'histories', r'Vec::<T, A>::push$', deep=1))
+        ck.require(worst is None or worst >= 101 or pushes_after, R, 'full-value:keeps-100', s0.where(),
+                   'the history of a full value is cut as soon as it holds %s items and nothing is pushed afterwards: a key with a full history of 100 '
+                   'entries comes back from a snapshot with %s' % (worst, (worst or 1) - 1), 'cut only above 100 items')
 
 
 def r09m(ck, fb, R='R09m'):
